@@ -221,6 +221,53 @@ def run(ctx):
             items.append(f'chk_lane {listlit(xs, cl)} {zlit(f.numerator)} {f.denominator} {rr[0]} {rr[1]} {listlit(out, cl)} {float_lit(tolv)}')
             meta.append(dict(inp=inp, impl='lane values', kind='lane'))
 
+    # ---- long signals (monitor only): the error of a single-precision mixer must not grow with the sample index / the shift size.
+    # reference: double-precision FFT of x*exp(2 pi i a n/N) (phase reduced mod 1 exactly), out-of-band bins zeroed, inverse FFT.
+    for c in range(6 if ctx.tier == 'quick' else 40):
+        N = rng.choice([4096, 16384, 65536])
+        nch = rng.choice([1, 2, 3])
+        single = rng.random() < 0.75
+        data = (nprng.standard_normal((N, nch)) + 1j * nprng.standard_normal((N, nch))).astype(np.complex64 if single else np.complex128)
+        rate = X.rand_rate(rng)
+        z = X.make_signal(rng, 'BasebandSignal', N, sshape=(nch,), rate=rate, data=data)
+        kind = rng.choice(['whole', 'frac'])
+        bins = [Fraction(rng.choice([1, -1]) * rng.randint(N // 16, N // 2 - 1)) + (Fraction(rng.randint(1, 15), 16) if kind == 'frac' else 0)
+                for _ in range(nch if rng.random() < 0.5 else 1)]
+        srq = X.hz(z.sample_rate)
+        arg = np.array([float(b * srq / N) for b in bins]) * u.Hz
+        if len(bins) == 1 and rng.random() < 0.5:
+            arg = arg[0]
+        inp = dict(cls='BasebandSignal', N=N, ss=[nch], bins=[str(b) for b in bins], dtype=str(data.dtype), rate=str(rate), case='long%d' % c)
+        ctx.seen(inp, nontrivial=True); ctx.count('long_signal'); ctx.count('dtype:' + str(data.dtype))
+        try:
+            yd = np.asarray(pb.freq_shift(z, arg).data)
+        except Exception as e:
+            ctx.fail('valid_shift_raised', inp, impl=repr(e))
+            continue
+        # the bin offsets the code holds (same float expressions as the code); the reference uses exactly these
+        q_ = arg.to(u.Hz)
+        if q_.isscalar:
+            q_ = q_[None]
+        held = [Fraction(float(v)) for v in np.asarray((q_ * z.dt).to_value(u.one) * N, dtype=float).reshape(-1)]
+        if any(abs(float(h) - float(b)) > 1e-9 * abs(float(b)) for h, b in zip(held, bins)):
+            ctx.fail('held_shift_differs_from_requested', inp, impl=[float(h) for h in held])
+            continue
+        worst = 0.0
+        for e_ in range(nch):
+            a = held[e_ if len(held) > 1 else 0]
+            pn, qn = a.numerator, a.denominator * N
+            ph = np.array([((pn * k) % qn) / qn for k in range(N)], dtype=float)
+            yy = data[:, e_].astype(np.complex128) * np.exp(2j * np.pi * ph)
+            Ys = np.fft.fftshift(np.fft.fft(yy))
+            src = np.arange(N) - float(a)
+            Ys[(src < 0) | (src > N - 1)] = 0
+            ref = np.fft.ifft(np.fft.ifftshift(Ys))
+            worst = max(worst, float(np.max(np.abs(yd[:, e_].astype(np.complex128) - ref))))
+        tolv = (6e-6 if single else 1e-10) * float(np.max(np.abs(data))) * (1 if single else N)
+        ctx.ratio(worst, tolv)
+        if worst > tolv or yd.dtype != data.dtype:
+            ctx.fail('spectrum_move_value', inp, impl=worst, model=tolv)
+
     res = ctx.run_cases(HEADER, items, shard=max(40, len(items) // 32 + 1))
     if res is None:
         return
